@@ -15,6 +15,12 @@ package lang
 
 //@ func itoIndexArray [C16 C19]
 //@   requires p != nil && p.Stdout != nil
+// several keys: the list handed to the marshaller holds - in key order - exactly the elements the keys
+// address in the INPUT array (negative keys count from the end); it is built in memory of its own, so the
+// input array is never modified while it is still being read
+//@   loop 1 invariant fresh(objArray) && forall(k, 0, len(v), v[k] == old(v[k]))
+//@   loop 1 step imp(len(params) > 1, len(objArray) == len(old(objArray)) + 1 && objArray[len(objArray)-1] == old(v[ite($atoi(params[$idx]) < 0, $atoi(params[$idx]) + len(v), $atoi(params[$idx]))]))
+//@   loop 1 step forall(k, 0, len(old(objArray)), objArray[k] == old(objArray[k]))
 
 // ---- C27: job IDs (lang/jobs.go) --------------------------------------------------------------------
 
